@@ -443,7 +443,27 @@ func init() {
 		return e.newErrorIface("<fmt.Errorf " + fmtHead(args[0]) + ">")
 	}
 	intrinsics["fmt.Sprintf"] = func(e *Engine, fr *frame, fn *ssa.Function, args []Value) Value {
+		// formats made only of %s / %d / %v verbs over strings and concrete integers are concatenations
+		if f, ok := args[0].(Str); ok && !f.IsSym() {
+			if r, ok := e.sprintfSimple(f.S, args[1].(Slice).V); ok {
+				return r
+			}
+		}
 		return Str{S: "<fmt.Sprintf " + fmtHead(args[0]) + ">"}
+	}
+	intrinsics[vrt+"RandDrawsEqual"] = func(e *Engine, fr *frame, fn *ssa.Function, args []Value) Value {
+		if len(e.randDraws) < 2 {
+			return e.st.False
+		}
+		a, b := e.randDraws[0], e.randDraws[1]
+		if len(a) != len(b) {
+			return e.st.False
+		}
+		cs := make([]*Term, len(a))
+		for i := range a {
+			cs[i] = e.st.Eq(a[i], b[i])
+		}
+		return e.st.And(cs...)
 	}
 	intrinsics["fmt.Sprint"] = func(e *Engine, fr *frame, fn *ssa.Function, args []Value) Value { return Str{S: "<fmt.Sprint>"} }
 	intrinsics["fmt.Fprintln"] = func(e *Engine, fr *frame, fn *ssa.Function, args []Value) Value {
@@ -639,9 +659,13 @@ func init() {
 	// ------------------------------------------------------------ crypto/rand
 	intrinsics["crypto/rand.Read"] = func(e *Engine, fr *frame, fn *ssa.Function, args []Value) Value {
 		b := args[0].(Slice)
+		var draw []*Term
 		for i := range b.V {
-			b.V[i] = e.newInput("rand", "int", 8)
+			t := e.newInput("rand", "int", 8)
+			b.V[i] = t
+			draw = append(draw, t)
 		}
+		e.randDraws = append(e.randDraws, draw)
 		return Tuple{e.st.Const(64, uint64(len(b.V))), Iface{}}
 	}
 }
@@ -838,4 +862,55 @@ func (e *Engine) urlOf(p *Value) *url.URL {
 		}
 	}
 	return u
+}
+
+func (e *Engine) sprintfSimple(f string, args []Value) (Str, bool) {
+	var out Str
+	ai := 0
+	lit := ""
+	flush := func() {
+		if lit != "" {
+			out = e.strConcat(out, Str{S: lit})
+			lit = ""
+		}
+	}
+	for i := 0; i < len(f); i++ {
+		if f[i] != '%' {
+			lit += string(f[i])
+			continue
+		}
+		if i+1 >= len(f) {
+			return Str{}, false
+		}
+		i++
+		switch f[i] {
+		case '%':
+			lit += "%"
+		case 's', 'v', 'd':
+			if ai >= len(args) {
+				return Str{}, false
+			}
+			a, ok := args[ai].(Iface)
+			ai++
+			if !ok {
+				return Str{}, false
+			}
+			switch v := a.V.(type) {
+			case Str:
+				flush()
+				out = e.strConcat(out, v)
+			case *Term:
+				if !v.IsConst() || v.W == 0 {
+					return Str{}, false
+				}
+				lit += strconv.FormatInt(v.SVal(), 10)
+			default:
+				return Str{}, false
+			}
+		default:
+			return Str{}, false
+		}
+	}
+	flush()
+	return out, true
 }
